@@ -730,7 +730,7 @@ def map_cases(draw):
         # never evicts (threads: also the GIL-atomic SimpleCache).  The timing-dependent interleavings (eviction between
         # the membership test and the read; a DiskCache file read while it is being written) are the deterministic
         # subject of the "race" campaign.
-        cache_type = draw(st.sampled_from(["lru", "hybrid"] + (["simple"] if ex == "thread" else [])))
+        cache_type = draw(st.sampled_from(["lru", "hybrid"] + (["simple", "disk"] if ex == "thread" else [])))
         shared = cache_type != "simple"
         tiny = False
     return {
